@@ -166,7 +166,7 @@ pub fn run(ctx: &Ctx) -> Outcome {
     let scratch = verif.join("build/c10");
     let _ = std::fs::create_dir_all(&scratch);
     let n_shards = 16u64;
-    let n_rand = ctx.tier.pick(200usize, 2000usize);
+    let n_rand = ctx.tier.pick(200usize, 20_000usize);
     let mk_every = ctx.tier.pick(2usize, 1usize);
     let fr = &files;
     let rs = par_shards(n_shards, |shard, st| {
